@@ -1,4 +1,5 @@
 import CssVerif.Model.DeclText
+import CssVerif.Model.DeclAttr
 /-!
 Driver for C10 (stateful). The tokenizer and the value grammar are parameters of the model (`Decl.Env`); the
 harness fills their tables (`tok`, `val`, `idn` lines) from the real `Tokenizer` / `PropertyValue`. Every operation
@@ -291,6 +292,21 @@ def step (st : St) (line : String) : St × String :=
     | some n => (st, if vContains st.v n then "1" else "0")
     | none => bad st
   | ["vobs"] => (st, showVObs st.v)
+  | ["aget", dom] => match decCps dom with
+    | some dom => (st, match attrGet st.d.seq dom with | some v => encCps v | none => "err crash:AttributeError")
+    | none => bad st
+  | ["aset", dom, v] => match decCps dom, decOpt v with
+    | some dom, some v =>
+      match attrCss dom with
+      | none => (st, "err crash:AttributeError")
+      | some _ => runD st (fun env => (attrSet env st.d dom v).getD ⟨st.d, .error .pyCrash⟩) showRet
+    | _, _ => bad st
+  | ["adel", dom] => match decCps dom with
+    | some dom =>
+      match attrCss dom with
+      | none => (st, "err crash:AttributeError")
+      | some _ => runD st (fun _ => (attrDel st.d dom).getD ⟨st.d, .error .pyCrash⟩) (fun s => "ok s:" ++ encCps s)
+    | none => bad st
   | ["pdef"] => (st, showPrefs SPrefs.default)
   | ["pmin"] => (st, showPrefs minifiedPrefs)
   | "prefs" :: ws => match decPrefs ws with
